@@ -1,6 +1,7 @@
 import A5.Props.C17
 import A5.Spec.Layout
 import A5.Model.CellGeo
+import A5.Lemmas.PentagonDisjoint5
 import Mathlib.MeasureTheory.Measure.Typeclasses.Finite
 import Mathlib.MeasureTheory.Measure.Count
 /-! # C03 — cells of one resolution partition the sphere: no overlaps, no gaps (combinatorial half + abstract reduction)
@@ -19,9 +20,19 @@ PROVED here:
   "no overlap" on the sphere to "every point is in some cell" (C01) and "all cells have equal area" (C04/C16); neither
   hypothesis is proved here for the spherical cells.
 
-NOT proved (`sphere_partition_statement`): the geometric claim for the spherical polygons — that the pentagons drawn on
-the lattice triangles tile each quintant, and the seams between the five quintants of a face (rotation by 72°), across
-the 30 dodecahedron edges and at the 20 vertices.  These depend on the float pentagon constants and the projection. -/
+* T3 `pentagons_do_not_overlap` (planar, exact rational arithmetic on the runtime constants, EVERY depth `n ≤ 30`, every
+  orientation, all positions `s ≠ t`; `A5/Lemmas/PentagonDisjoint*.lean`): no point lies more than `2⁻⁵⁴` (in cross-product
+  units; `< 2⁻⁵²` lattice units from an edge line) inside the pentagons of two different positions; pentagons whose anchors
+  are more than 2 lattice steps apart have exactly disjoint interiors.  The plain statement "disjoint interiors" is FALSE on
+  the rounded constants (`pentagons_disjoint_exact_is_false`: neighbours that ideally share an edge overlap in a sliver
+  about 3·10⁻¹⁷ wide) and the margin is sharp up to a factor 4 (`overlap_margin_sharp`).  Proof: the relative
+  configuration of two cells (offset difference, flips, k digits) lives in a finite set closed under subdivision
+  (15 616 kernel-checked cases), every near configuration (588) carries a separating edge with slack, far ones are
+  separated by bounding hexagons.
+
+NOT proved (`sphere_partition_statement`): coverage by the pentagons (no gaps) other than through the lattice triangles,
+the seams between the five quintants of a face (rotation by 72°), across the 30 dodecahedron edges and at the 20
+vertices, and the transfer through the projection and to `f64`. -/
 set_option linter.unusedSectionVars false
 namespace A5.C03
 open A5 A5.HilbertLocate
@@ -180,5 +191,37 @@ example : (Measure.count : Measure Bool) (({false} : Set Bool) ∩ {true}) = 0 :
     rw [Measure.count_singleton, count_bool_univ]
     simp
     exact (ENNReal.div_self (by norm_num) (by norm_num)).symm
+
+/-! ## T3: the pentagons of different positions do not overlap (planar, exact arithmetic, every depth) -/
+
+open A5.PG A5.CP A5.PD in
+/-- T3. `pentagons_do_not_overlap`: within a quintant, for every depth, orientation and pair of different positions, no
+point is more than `2⁻⁵⁴` inside both pentagons; equivalently every common interior point lies within `2⁻⁵²` lattice
+units of an edge line of one of the two. -/
+theorem pentagons_do_not_overlap (n o s t : Nat) (hn : n ≤ 30) (ho : o < 6) (hs : s < 4 ^ n) (ht : t < 4 ^ n)
+    (hne : s ≠ t) (a b : Anchor) (ha : sToAnchor s n o = .ok a) (hb : sToAnchor t n o = .ok b) :
+    (¬∃ w, DeepIn (1 / 2 ^ 54) (pentagonQ a) w ∧ DeepIn (1 / 2 ^ 54) (pentagonQ b) w) ∧
+    ∀ w : ℚ × ℚ, StrictIn (pentagonQ a) w → StrictIn (pentagonQ b) w →
+      ∃ e ∈ edges (pentagonQ a) ++ edges (pentagonQ b), cross e.1 e.2 w < 0 ∧
+        cross e.1 e.2 w * cross e.1 e.2 w ≤ (1 / 2 ^ 52) * (1 / 2 ^ 52) * sqLen e :=
+  ⟨pentagons_disjoint_margin n o s t hn ho hs ht hne a b ha hb,
+   fun w hwa hwb => pentagons_overlap_within n o s t hn ho hs ht hne a b ha hb w hwa hwb⟩
+
+open A5.PG A5.CP A5.PD in
+/-- T3, far pairs: anchors more than 2 lattice steps apart have exactly disjoint pentagon interiors. -/
+theorem far_pentagons_do_not_overlap (a b : Anchor) (ha : IsFlip a.flips) (hb : IsFlip b.flips)
+    (hfar : ¬HexLe 2 (b.offset.1 - a.offset.1, b.offset.2 - a.offset.2)) :
+    ¬∃ w, StrictIn (pentagonQ a) w ∧ StrictIn (pentagonQ b) w :=
+  far_pentagons_disjoint a b ha hb hfar
+
+/-- the exact statement is false on the rounded runtime constants (kernel-checked witness), and the margin of T3 cannot be
+improved by more than a factor 4 -/
+theorem pentagons_disjoint_exact_is_false : ¬A5.PD.pentagons_disjoint_statement :=
+  A5.PD.pentagons_disjoint_statement_false
+
+open A5.PG A5.PD in
+theorem overlap_margin_sharp : ∃ w : ℚ × ℚ, DeepIn (1 / 2 ^ 56) (pentagonQ ⟨0, (0, 0), (1, 1)⟩) w ∧
+    DeepIn (1 / 2 ^ 56) (pentagonQ ⟨3, (1, 1), (-1, 1)⟩) w :=
+  margin_sharp
 
 end A5.C03
